@@ -66,6 +66,7 @@ type webClient struct {
 	id          string
 	username    string
 	permissions []string
+	datamu      sync.Mutex // protects data
 	data        map[string]interface{}
 	requested   map[string][]string
 	done        chan struct{}
@@ -104,7 +105,15 @@ func (c *webClient) Permissions() []string {
 }
 
 func (c *webClient) Data() map[string]interface{} {
+	c.datamu.Lock()
+	defer c.datamu.Unlock()
 	return maps.Clone(c.data)
+}
+
+func (c *webClient) setData(data map[string]interface{}) {
+	c.datamu.Lock()
+	defer c.datamu.Unlock()
+	c.data = data
 }
 
 func (c *webClient) PushClient(group, kind, id string, username string, perms []string, data map[string]interface{}) error {
@@ -1341,7 +1350,7 @@ func leaveGroup(c *webClient) {
 
 	group.DelClient(c)
 	c.permissions = nil
-	c.data = nil
+	c.setData(nil)
 	c.requested = make(map[string][]string)
 	c.group = nil
 }
@@ -1420,7 +1429,7 @@ func handleClientMessage(c *webClient, m clientMessage) error {
 				"cannot join multiple groups",
 			)
 		}
-		c.data = m.Data
+		c.setData(m.Data)
 		g, err := group.AddClient(m.Group, c,
 			group.ClientCredentials{
 				Username: m.Username,
@@ -1982,6 +1991,7 @@ func handleClientMessage(c *webClient, m clientMessage) error {
 					"Bad value in setdata",
 				))
 			}
+			c.datamu.Lock()
 			if c.data == nil {
 				c.data = make(map[string]interface{})
 			}
@@ -1992,6 +2002,7 @@ func handleClientMessage(c *webClient, m clientMessage) error {
 					c.data[k] = v
 				}
 			}
+			c.datamu.Unlock()
 			id := c.Id()
 			user := c.Username()
 			perms := c.Permissions()
